@@ -18,6 +18,9 @@ Loop(kind, var, items, body) == [t |-> "loop", kind |-> kind, var |-> var, items
 \* items one per second); a block ended from inside it takes the producer with it
 Staged(var, items, body) == [t |-> "staged", kind |-> "foreach", var |-> var, items |-> items, body |-> body]
 
+\* a call of another function (its name and body); the callee's exit number is not looked at by the caller
+CallFn(fname, body) == [t |-> "call", fname |-> fname, body |-> body]
+
 Normal == [k |-> "normal", name |-> "", n |-> 0]
 RenderTag(tag, env) == [x \in DOMAIN tag |->
                           IF tag[x] = "$i" THEN ToString(env.i)
@@ -45,6 +48,10 @@ ExecStmt(s, env) ==
                                IF r.c.k = "break" /\ r.c.name = "if" THEN R(r.out, Normal, r.tk) ELSE r
                           ELSE R(<<>>, Normal, <<>>)
       [] s.t = "loop" -> LET r == ExecLoop(s, s.items, env) IN R(r.out, r.c, r.tk)
+      \* return and `break <callee>` end the callee only: the caller carries on.  (The callee sees the caller's loop variable as
+      \* its parameter; nothing else can leave a function: murex refuses a block name outside the function's scope.)
+      [] s.t = "call" -> LET r == ExecSeq(s.body, env) IN
+                         IF r.c.k = "return" \/ (r.c.k = "break" /\ r.c.name = s.fname) THEN R(r.out, Normal, r.tk) ELSE r
       [] s.t = "staged" ->
            LET r == ExecLoop(s, s.items, env)
                n == Len(s.items)
@@ -122,6 +129,27 @@ Body2(p) ==
 Case2(p) == LET r == Call(FName, Body2(p)) IN
             [family |-> "stage", params |-> p, body |-> Body2(p), out |-> r.out, exit |-> r.exit, tk |-> r.tk, wellformed |-> r.wellformed]
 
+(* ------------------------------ program family 3: a function called from a loop -------- *)
+\* fn: s; loop k1 over 3 { a; [if i = w1 { g1; C1; h1 }]; call inner(i); d }; e      inner: p; if i = w2 { g2; C2; h2 }; q
+InnerName == "inner"
+InnerCtl == {"none", "return", "break-inner", "break-if"}
+MkInnerCtl(k) == IF k = "break-inner" THEN <<Ctl("break", InnerName, 0)>> ELSE MkCtl(k)
+Params3 == [k1 : LoopKinds, c1 : {"none", "return", "break-fn"} \cup {"break-" \o k : k \in LoopKinds} \cup {"continue-" \o k : k \in LoopKinds},
+            w1 : {2, 3}, c2 : InnerCtl, w2 : {1, 2}]
+Valid3(p) == (p.c1 = "none" => p.w1 = 2) /\ (p.c2 = "none" => p.w2 = 1) /\ Targets(p.c1) \subseteq {p.k1} /\ p.c2 # "none"
+Programs3 == {p \in Params3 : Valid3(p)}
+InnerBody(p) == <<Out(<<"p", "$i">>), If("i", p.w2, <<Out(<<"g", "2">>)>> \o MkInnerCtl(p.c2) \o <<Out(<<"h", "2">>)>>), Out(<<"q", "$i">>)>>
+Body3(p) == <<Out(<<"s">>),
+              Loop(p.k1, "i", <<1, 2, 3>>, <<Out(<<"a", "$i">>)>> \o Guarded(p.c1, "i", p.w1, "1") \o <<CallFn(InnerName, InnerBody(p)), Out(<<"d", "$i">>)>>),
+              Out(<<"e">>)>>
+Case3(p) == LET r == Call(FName, Body3(p)) IN
+            [family |-> "call", params |-> p, body |-> Body3(p), out |-> r.out, exit |-> r.exit, tk |-> r.tk, wellformed |-> r.wellformed]
+ASSUME \A p \in Programs3 : Call(FName, Body3(p)).wellformed
+\* `return` in the callee at item 1: the callee's tail is skipped for that item only, the caller's loop goes on
+ASSUME LET r == Call(FName, Body3([k1 |-> "foreach", c1 |-> "none", w1 |-> 2, c2 |-> "return", w2 |-> 1])) IN
+         r.out = <<<<"s">>, <<"a", "1">>, <<"p", "1">>, <<"g", "2">>, <<"d", "1">>, <<"a", "2">>, <<"p", "2">>, <<"q", "2">>, <<"d", "2">>,
+                   <<"a", "3">>, <<"p", "3">>, <<"q", "3">>, <<"d", "3">>, <<"e">>>> /\ r.exit = 0
+
 \* sanity: the meaning never invents output and a program without control statements prints everything
 ASSUME \A p \in Programs : Call(FName, Body(p)).wellformed
 ASSUME \A p \in Programs2 : Call(FName, Body2(p)).wellformed
@@ -137,5 +165,5 @@ ASSUME LET r == Call(FName, Body([k1 |-> "foreach", c1 |-> "none", w1 |-> 1, inn
 ASSUME Call(FName, Body2([wrap |-> FALSE, c |-> "return", w |-> 2])).tk = <<[lo |-> 2, hi |-> NStage - 1]>>
 ASSUME Call(FName, Body2([wrap |-> TRUE, c |-> "break-while", w |-> 3])).tk = <<[lo |-> 3, hi |-> NStage - 1]>>
 ASSUME Call(FName, Body2([wrap |-> TRUE, c |-> "none", w |-> 2])).tk = <<[lo |-> NStage, hi |-> NStage], [lo |-> NStage, hi |-> NStage]>>
-ASSUME ndJsonSerialize("cases.ndjson", SetToSeq({Case(p) : p \in Programs} \cup {Case2(p) : p \in Programs2}))
+ASSUME ndJsonSerialize("cases.ndjson", SetToSeq({Case(p) : p \in Programs} \cup {Case2(p) : p \in Programs2} \cup {Case3(p) : p \in Programs3}))
 =============================================================================
